@@ -54,34 +54,34 @@ SAN_ENV = {
 DEFAULT = {"variant": "asan", "adapters": True, "quick": {"shards": 8, "n": 1500, "scale": 20, "arg": 0},
            "thorough": {"shards": 16, "n": 12000, "scale": 30, "arg": 0}, "fuzz_s": 0}
 CONFIG = {
-    "C08": {"fuzz_s": 240, "quick": {"shards": 8, "n": 2500, "scale": 30, "arg": 9}, "thorough": {"shards": 16, "n": 15000, "scale": 50, "arg": 16}},
-    "C14": {"quick": {"shards": 8, "n": 1200, "scale": 24, "arg": 10}, "thorough": {"shards": 16, "n": 6000, "scale": 60, "arg": 24}},
-    "C12": {"quick": {"shards": 8, "n": 3000, "scale": 24, "arg": 8}, "thorough": {"shards": 16, "n": 20000, "scale": 40, "arg": 16}},
-    "C13": {"quick": {"shards": 8, "n": 3000, "scale": 24, "arg": 8}, "thorough": {"shards": 16, "n": 20000, "scale": 40, "arg": 16}},
-    "C09": {"fuzz_s": 120, "quick": {"shards": 8, "n": 1500, "scale": 30, "arg": 8}, "thorough": {"shards": 16, "n": 10000, "scale": 50, "arg": 16}},
-    "C16": {"fuzz_s": 90, "quick": {"shards": 8, "n": 1500, "scale": 24, "arg": 8}, "thorough": {"shards": 16, "n": 10000, "scale": 40, "arg": 16}},
-    "C15": {"fuzz_s": 120, "quick": {"shards": 8, "n": 2500, "scale": 24, "arg": 12}, "thorough": {"shards": 16, "n": 15000, "scale": 40, "arg": 24}},
+    "C08": {"fuzz_s": 240, "quick": {"shards": 8, "n": 6000, "scale": 30, "arg": 9}, "thorough": {"shards": 16, "n": 15000, "scale": 50, "arg": 16}},
+    "C14": {"quick": {"shards": 8, "n": 4000, "scale": 24, "arg": 10}, "thorough": {"shards": 16, "n": 14000, "scale": 60, "arg": 24}},
+    "C12": {"quick": {"shards": 8, "n": 9000, "scale": 24, "arg": 8}, "thorough": {"shards": 16, "n": 30000, "scale": 40, "arg": 16}},
+    "C13": {"quick": {"shards": 8, "n": 9000, "scale": 24, "arg": 8}, "thorough": {"shards": 16, "n": 30000, "scale": 40, "arg": 16}},
+    "C09": {"fuzz_s": 120, "quick": {"shards": 8, "n": 5000, "scale": 30, "arg": 8}, "thorough": {"shards": 16, "n": 16000, "scale": 50, "arg": 16}},
+    "C16": {"fuzz_s": 90, "quick": {"shards": 8, "n": 6000, "scale": 24, "arg": 8}, "thorough": {"shards": 16, "n": 18000, "scale": 40, "arg": 16}},
+    "C15": {"fuzz_s": 120, "quick": {"shards": 8, "n": 7000, "scale": 24, "arg": 12}, "thorough": {"shards": 16, "n": 20000, "scale": 40, "arg": 24}},
     "C10": {"variants": ["asan", "tsan"],
             "quick": {"shards": 4, "n": 150, "scale": 20, "arg": 12, "max_size": 100},
             "thorough": {"shards": 6, "n": 3000, "scale": 30, "arg": 20, "max_size": 100}},
     "C11": {"adapters": False, "enum": True, "variants": ["asan", "tsan"],
             "quick": {"shards": 4, "n": 250, "scale": 5, "arg": 0, "max_size": 100},
             "thorough": {"shards": 6, "n": 3000, "scale": 5, "arg": 0, "max_size": 100}},
-    "C20": {"enum": True, "quick": {"shards": 8, "n": 3000, "scale": 4, "arg": 0}, "thorough": {"shards": 16, "n": 30000, "scale": 4, "arg": 0}},
-    "C03": {"quick": {"shards": 8, "n": 4000, "scale": 20, "arg": 10}, "thorough": {"shards": 16, "n": 25000, "scale": 40, "arg": 24}},
-    "C04": {"quick": {"shards": 8, "n": 5000, "scale": 20, "arg": 10}, "thorough": {"shards": 16, "n": 30000, "scale": 40, "arg": 24}},
-    "C05": {"quick": {"shards": 8, "n": 4000, "scale": 20, "arg": 10}, "thorough": {"shards": 16, "n": 25000, "scale": 40, "arg": 24}},
-    "C06": {"fuzz_s": 90, "quick": {"shards": 8, "n": 3000, "scale": 24, "arg": 10}, "thorough": {"shards": 16, "n": 20000, "scale": 40, "arg": 24}},
-    "C19": {"quick": {"shards": 8, "n": 3000, "scale": 24, "arg": 10}, "thorough": {"shards": 16, "n": 20000, "scale": 40, "arg": 24}},
-    "C01": {"fuzz_s": 120, "quick": {"shards": 8, "n": 5000, "scale": 20, "arg": 10},
-            "thorough": {"shards": 16, "n": 10000, "scale": 40, "arg": 24}},
-    "C02": {"quick": {"shards": 8, "n": 2000, "scale": 20, "arg": 10},
-            "thorough": {"shards": 16, "n": 5000, "scale": 40, "arg": 24}},
-    "C18": {"quick": {"shards": 8, "n": 2500, "scale": 10, "arg": 6},
+    "C20": {"enum": True, "quick": {"shards": 8, "n": 6000, "scale": 4, "arg": 0}, "thorough": {"shards": 16, "n": 30000, "scale": 4, "arg": 0}},
+    "C03": {"quick": {"shards": 8, "n": 10000, "scale": 20, "arg": 10}, "thorough": {"shards": 16, "n": 25000, "scale": 40, "arg": 24}},
+    "C04": {"quick": {"shards": 8, "n": 10000, "scale": 20, "arg": 10}, "thorough": {"shards": 16, "n": 30000, "scale": 40, "arg": 24}},
+    "C05": {"quick": {"shards": 8, "n": 10000, "scale": 20, "arg": 10}, "thorough": {"shards": 16, "n": 25000, "scale": 40, "arg": 24}},
+    "C06": {"fuzz_s": 90, "quick": {"shards": 8, "n": 9000, "scale": 24, "arg": 10}, "thorough": {"shards": 16, "n": 20000, "scale": 40, "arg": 24}},
+    "C19": {"quick": {"shards": 8, "n": 9000, "scale": 24, "arg": 10}, "thorough": {"shards": 16, "n": 20000, "scale": 40, "arg": 24}},
+    "C01": {"fuzz_s": 120, "quick": {"shards": 8, "n": 12000, "scale": 20, "arg": 10},
+            "thorough": {"shards": 16, "n": 20000, "scale": 40, "arg": 24}},
+    "C02": {"quick": {"shards": 8, "n": 6000, "scale": 20, "arg": 10},
+            "thorough": {"shards": 16, "n": 15000, "scale": 40, "arg": 24}},
+    "C18": {"quick": {"shards": 8, "n": 8000, "scale": 10, "arg": 6},
             "thorough": {"shards": 16, "n": 20000, "scale": 16, "arg": 10}},
-    "C07": {"enum": True, "quick": {"shards": 8, "n": 2500, "scale": 8, "arg": 10},
+    "C07": {"enum": True, "quick": {"shards": 8, "n": 4000, "scale": 8, "arg": 10},
             "thorough": {"shards": 16, "n": 20000, "scale": 10, "arg": 24}},
-    "C17": {"enum": True, "quick": {"shards": 8, "n": 4000, "scale": 8, "arg": 9},
+    "C17": {"enum": True, "quick": {"shards": 8, "n": 8000, "scale": 8, "arg": 9},
             "thorough": {"shards": 16, "n": 40000, "scale": 12, "arg": 24}},
 }
 
